@@ -1648,7 +1648,8 @@ impl CanonicalizeContext {
 
 		/// merge a following mstyle that has the same attrs
 		fn merge_adjacent_similar_mstyles(mathml: Element) {
-			if ELEMENTS_WITH_FIXED_NUMBER_OF_CHILDREN.contains(name(&get_parent(mathml))) {
+			let parent = get_parent(mathml);
+			if ELEMENTS_WITH_FIXED_NUMBER_OF_CHILDREN.contains(name(&parent)) || name(&parent) == "mmultiscripts" {
 				// FIX: look to see if all of the children (might be more than just the adjacent one) have the same attr and then pull them up to the parent
 				return;		// can't remove subsequent child 
 			}
